@@ -69,6 +69,12 @@ def run_grammar(case: dict):
     n2 = normalize_url(n)
     if n2 != n:
         return viol("not-idempotent", f"{u!r} -> {n!r} -> {n2!r}")
+    # acceptance by the library's full validator (length limit included) must carry over to the normalised form
+    from nauyaca.utils.url import is_gemini_url
+
+    if is_gemini_url(u) and not is_gemini_url(n):
+        return viol("normalised-form-rejected", f"{len(u.encode())}-byte URL is accepted by validate_url, its {len(n.encode())}-byte "
+                    f"normalised form is not: {u[:40]!r}... -> {n[:40]!r}...", boundary=True)
     # the first parse must already agree with what was asked for
     got0 = (p.hostname, p.port, p.path, p.query)
     if not (same_host(want[0], got0[0]) and want[1:] == tuple(got0[1:])):
@@ -100,6 +106,66 @@ def run_mutation(case: dict):
     return ok(accepted=True, normalized=n)
 
 
+def run_wire(case: dict):
+    """GeminiClient.get(u) over in-memory TLS; the bytes it puts on the wire are parsed by the real server protocol
+    with a spy handler: the handler must see the components the caller asked for."""
+    from vlib import certs, memnet, srvsim, vloop
+    from vlib.faketransport import FakeTransport
+    from vlib.nlog import setup_logging
+
+    setup_logging()
+    from nauyaca.client.session import GeminiClient
+    from nauyaca.server.protocol import GeminiServerProtocol
+    from nauyaca.utils.url import is_gemini_url
+
+    u = case["url"]
+    if not is_gemini_url(u):
+        return grey("library-rejects-input")
+    seen = {}
+
+    async def scenario(loop):
+        sim = srvsim.Sim(loop)
+        handler = srvsim.build_handler(sim, {"kind": "value", "status": 20, "meta": "text/gemini", "body": "WIRE"})
+
+        def respond(req: bytes) -> bytes:
+            tr = FakeTransport(loop)
+            proto = GeminiServerProtocol(handler, None)
+            tr.attach(proto)
+            tr.feed(req)
+            seen["line"] = req
+            return tr.written() or b"40 nothing\r\n"
+
+        net = memnet.MemNet()
+        net.install(loop)
+        net.default_peer = memnet.ScriptedPeer(certs.get("ec-a"), [("wait_request", 1.0), ("respond", respond), ("close",)])
+        client = GeminiClient(timeout=10, trust_on_first_use=False)
+        try:
+            r = await client.get(u, follow_redirects=False)
+            res = ("resp", r.status, r.body)
+        except Exception as e:
+            res = ("exc", type(e).__name__, str(e)[:80])
+        calls = [e for e in sim.log if e[0] == "handler"]
+        return res, calls, [(h, p) for (h, p, _t) in loop.connection_log]
+
+    res, calls, conns = vloop.run(scenario)
+    want = (case["host"], case["port"], case["path"], case["query"])
+    info = {"result": str(res)[:80], "line": seen.get("line", b"")[:80].decode("latin-1")}
+    if res[0] == "exc" and not seen.get("line"):
+        # e.g. a reg-name that is not a usable DNS/IDNA name (label > 63 bytes, empty label): no request was put on the wire
+        return grey("no-connection", **info)
+    if not conns:
+        return viol("accepted-url-not-fetched", f"{u[:80]!r}: {res}", **info)
+    ch, cp = conns[0]
+    if not same_host(str(ch), want[0]) or cp != want[1]:
+        return viol("connected-to-other-endpoint", f"{u[:80]!r}: connected to {(ch, cp)}, wanted {want[:2]}", **info)
+    if len(calls) != 1 or res[:2] != ("resp", 20):
+        return viol("wire-request-refused-by-server", f"{u[:60]!r} -> wire {seen.get('line', b'')[:60]!r} -> {res}", boundary=("len-boundary" in case.get("labels", [])), **info)
+    _, _, raw_url, host, port, path, query, _fp = calls[0]
+    if not (same_host(host, want[0]) and (port, path, query) == want[1:]):
+        return viol("server-sees-other-components", f"caller asked {want} with {u[:80]!r}; wire {seen.get('line', b'')[:80]!r}; handler saw {(host, port, path, query)}", **info)
+    return ok(**info)
+
+
 def _nontrivial(case, v):
     if v.kind == "ok" and v.info.get("accepted") is False:
         return False
@@ -116,6 +182,8 @@ def _labels(case, v):
 
 def _bucket(case, v):
     b = v.clause
+    if v.info.get("boundary"):
+        return b + ":length-boundary"
     if "[" in case["url"]:
         b += ":ipv6"
     return b
@@ -124,6 +192,25 @@ def _bucket(case, v):
 def strat_grammar():
     @st.composite
     def s(draw):
+        if draw(st.integers(0, 9)) == 0:
+            # near the 1024-byte request limit, incl. URLs whose normalised form is longer (empty path, upper case ...)
+            total = draw(st.integers(1016, 1026))
+            host = draw(st.sampled_from(["h", "example.org", "EXAMPLE.org", "[::1]", "h:1965", "h:01965"]))
+            shape = draw(st.sampled_from(["empty-path-query", "empty-path", "path", "path-query"]))
+            base = f"gemini://{host}"
+            hden = host.split(":")[0].lower() if not host.startswith("[") else "::1"
+            room = total - 2 - len(base)
+            if shape == "empty-path":
+                host2 = "h" * max(1, room)
+                return {"url": "gemini://" + host2, "host": host2, "port": 1965, "path": "/", "query": "", "labels": ["len-boundary", "path:empty"]}
+            if shape == "empty-path-query":
+                q = "q" * max(1, room - 1)
+                return {"url": base + "?" + q, "host": hden, "port": 1965, "path": "/", "query": q, "labels": ["len-boundary", "path:empty", "query"]}
+            if shape == "path":
+                pth = "/" + "p" * max(0, room - 1)
+                return {"url": base + pth, "host": hden, "port": 1965, "path": pth, "query": "", "labels": ["len-boundary"]}
+            q = "q" * max(1, room - 3)
+            return {"url": base + "/p?" + q, "host": hden, "port": 1965, "path": "/p", "query": q, "labels": ["len-boundary", "query"]}
         u = draw(urlgen.gemini_url())
         if draw(st.integers(0, 9)) == 0:
             u = dict(u)
@@ -187,6 +274,18 @@ def strat_mutation():
 
 
 LANES = [
+    Lane(
+        name="wire",
+        run_case=run_wire,
+        strategy=strat_grammar,
+        budget={"quick": 2400, "thorough": 40000},
+        shards={"quick": 16, "thorough": 32},
+        nontrivial=_nontrivial,
+        labels=_labels,
+        bucket=_bucket,
+        rule="GeminiClient.get over in-memory TLS; the request line on the wire is parsed by the real server protocol; "
+             "the spy handler must see the host/port/path/query the caller asked for",
+    ),
     Lane(
         name="grammar",
         run_case=run_grammar,
